@@ -173,6 +173,10 @@ func NewStateV3(height uint64, db db.DB, events eventsdb.IEventsDB, cacheSize in
 	state.tree = iavlTree
 	state.height = int64(height)
 	state.InitialVersion = int64(initialVersion)
+	if state.height < state.InitialVersion {
+		// a chain that is about to import its genesis: the state is "at" the initial version, not at 0
+		state.height = state.InitialVersion
+	}
 
 	state.Candidates.LoadCandidatesDeliver()
 	state.Candidates.LoadStakes()
